@@ -461,13 +461,88 @@ func (c *normCtx) tryExtract(value ast.Value, expected Input) (ast.Value, bool) 
 		// downstream error against the original literal.
 		return value, false
 	}
+	// The extracted value is handed back as a *variable* value and goes
+	// through variable coercion, so it has to be the external form of the
+	// literal (an enum's name, not its internal value).
+	external, ok := externalLiteral(value, expected)
+	if !ok {
+		return value, false
+	}
 	name := c.nextName()
-	c.synthArgs[name] = coerced
+	c.synthArgs[name] = external
 	c.newVarDefs = append(c.newVarDefs, ast.NewVariableDefinition(&ast.VariableDefinition{
 		Variable: ast.NewVariable(&ast.Variable{Name: ast.NewName(&ast.Name{Value: name})}),
 		Type:     typeASTFromGoType(expected),
 	}))
 	return ast.NewVariable(&ast.Variable{Name: ast.NewName(&ast.Name{Value: name})}), true
+}
+
+// externalLiteral converts a variable-free literal into the value a client
+// would send for it in a variable of type t. ok is false for literals whose
+// round trip through variable coercion is not known to be the identity
+// (custom scalars, unknown enum names or input fields).
+func externalLiteral(value ast.Value, t Input) (interface{}, bool) {
+	switch tt := t.(type) {
+	case *NonNull:
+		inner, ok := tt.OfType.(Input)
+		if !ok {
+			return nil, false
+		}
+		return externalLiteral(value, inner)
+	case *List:
+		elem, ok := tt.OfType.(Input)
+		if !ok {
+			return nil, false
+		}
+		lv, isList := value.(*ast.ListValue)
+		if !isList {
+			return externalLiteral(value, elem)
+		}
+		out := make([]interface{}, 0, len(lv.Values))
+		for _, item := range lv.Values {
+			e, ok := externalLiteral(item, elem)
+			if !ok {
+				return nil, false
+			}
+			out = append(out, e)
+		}
+		return out, true
+	case *InputObject:
+		ov, isObj := value.(*ast.ObjectValue)
+		if !isObj {
+			return nil, false
+		}
+		fields := tt.Fields()
+		out := map[string]interface{}{}
+		for _, f := range ov.Fields {
+			if f == nil || f.Name == nil {
+				return nil, false
+			}
+			def, known := fields[f.Name.Value]
+			if !known {
+				return nil, false
+			}
+			e, ok := externalLiteral(f.Value, def.Type)
+			if !ok {
+				return nil, false
+			}
+			out[f.Name.Value] = e
+		}
+		return out, true
+	case *Enum:
+		ev, isEnum := value.(*ast.EnumValue)
+		if !isEnum || tt.ParseLiteral(ev) == nil {
+			return nil, false
+		}
+		return ev.Value, true
+	case *Scalar:
+		switch tt {
+		case Int, Float, String, Boolean, ID:
+			v := tt.ParseLiteral(value)
+			return v, v != nil
+		}
+	}
+	return nil, false
 }
 
 // typeASTFromGoType maps a runtime Type to its AST form so we can
